@@ -274,6 +274,25 @@ def run(ctx, model_ok):
             ctx.oracle_fail({"class": cls, "what": bad, "ops": rops, "impl": [val(l) if l else None for l in ls]})
         elif len(ctx.samples) < 10 and c["kind"] in ("arith", "to") and rng.random() < 0.01:
             ctx.sample({"text": c["text"], "lang": c["lang"], "values": [val(l) for l in ls]})
+    # consecutive days under every default zone (a zone-aware `today` must move tomorrow and yesterday with it)
+    zops, zones = [], ["GMT+13", "GMT-12", "GMT+14", "EST", "JST", "IST", "GMT-11", "GMT+12"]
+    for z in zones:
+        zops += [{"op": "tz", "v": z}, {"op": "exec", "lang": "en", "text": "today\ntomorrow\nyesterday"}, {"op": "exec", "lang": "tr", "text": "bugün\nyarın\ndün"}]
+    zops.append({"op": "tz", "v": "UTC"})
+    zres = C.run_impl(zops)
+    for zi, z in enumerate(zones):
+        for r, lang in ((zres[3 * zi + 1], "en"), (zres[3 * zi + 2], "tr")):
+            ctx.seen(("const-zone", z, lang), True)
+            ctx.count("const-under-zone")
+            ds = [val(l) for l in r.get("lines", [])]
+            try:
+                t0, t1, t2 = [datetime.date(*d["ymd"]) for d in ds]
+                ok = (t1 - t0).days == 1 and (t0 - t2).days == 1
+            except Exception:
+                ok = False
+            if not ok:
+                ctx.oracle_fail({"class": "const-zone", "what": f"under the default zone {z} today / tomorrow / yesterday are {ds}: not consecutive days",
+                                 "ops": [{"op": "tz", "v": z}, {"op": "exec", "lang": lang, "text": "today\ntomorrow\nyesterday" if lang == "en" else "bugün\nyarın\ndün"}, {"op": "tz", "v": "UTC"}]})
     # the model's date constants against the implementation's (tie of SC.Rules.constDate)
     if model_ok:
         req = [f"now\t{res[0]['secs']}"]
